@@ -155,8 +155,7 @@ pub fn run(rep: &mut Report) {
                 Err((key, what)) => rep.violation(&key, "exact", what, json!({"m": m})),
             }
         }
-        let t = probminhash::verif::take_counters();
-        rep.add_ticks(&t);
+        collect_ticks(rep);
         let ex: Vec<usize> = {
             let mut fy = FYshuffle::new(5);
             fy.reset();
